@@ -260,3 +260,18 @@ pub fn write_native(l0: u8, used: u8, max_size: u16) -> u32 {
         2
     }
 }
+
+/// Native replay body of E2 queries `e2_drop_oversized_whole_queue` / `e2_drop_oversized_predicate`
+/// (C16 / C13): two queued datagrams, one of 10 bytes and one of 100, limit 50: the 100-byte one goes
+/// whether it is at the head of the queue or behind the small one; the byte total follows.
+pub fn drop_oversized_native(first_big: bool) -> u32 {
+    let mut s = if first_big { mk_outgoing(2, 100, 10, 0) } else { mk_outgoing(2, 10, 100, 0) };
+    let d = s.drop_oversized(50);
+    assert!(d, "an oversized datagram was queued but nothing was reported dropped");
+    assert!(s.outgoing.len() == 1 && s.outgoing[0].data.len() == 10, "an oversized datagram survived the purge (queue: {:?})", s.outgoing.iter().map(|x| x.data.len()).collect::<Vec<_>>());
+    assert!(s.outgoing_total == 10);
+    // exactly at the limit is dropped too (the limit is exclusive), one below is kept
+    let mut t = mk_outgoing(2, 49, 50, 0);
+    assert!(t.drop_oversized(50) && t.outgoing.len() == 1 && t.outgoing[0].data.len() == 49 && t.outgoing_total == 49);
+    1
+}
